@@ -214,6 +214,19 @@ def top(prop, replay=None, **kw):
              expect=[c + "\\.postcondition\\.2", "jwt_verify_complete\\.assertion", "contract_cb_checker\\.precondition"],
              replay=replay, **kw)
 
+# ===================== jwt_builder_generate (top level) =====================
+GEN_CLAUSE_PROPS = [["C14", 2], ["C03", 6], ["C10", 5], ["C13", 1], ["C17", 1]]
+def gen_top(replay={"driver": "replay/r_gen.c"}):
+    c = "contract_all_jwt_builder_generate"
+    return U("TOP.jwt_builder_generate", "jwt_builder_generate (libjwt/jwt-common.c as jwt-builder)", common_tu("BUILDER"),
+             "contracts/jwt_common_c.h",
+             "void *volatile cbp = (void *)contract_cb_builder; jwt_builder_t *b; jwt_builder_generate(b);",
+             "jwt_builder_generate/" + c, replace=["__setkey_check/contract_C02___setkey_check"],
+             stubs=["stubs/libc.c", "stubs/ghost.c", "stubs/time.c", "stubs/generate_top.c"],
+             defines=["VERIF_TU_BUILDER", "VERIF_STRCPY_ERRBUF"], flags=[], object_bits=10, timeout=900,
+             expect=[c + "\\.postcondition\\.4", "contract_cb_builder\\.precondition", "jwt_encode_str\\.assertion"],
+             clause_props=GEN_CLAUSE_PROPS, base_ensures=3, replay=replay)
+
 # ============================ parsing units =================================
 VERIFY_JSON_STUBS = LIBC + ["stubs/time.c", "stubs/jansson.c", "stubs/alloc.c"]
 def parse_units(prop, clauses_name):
@@ -250,6 +263,11 @@ P["C06"] = {"property": "C06", "level": "proof", "units": [
 P["C09"] = {"property": "C09", "level": "proof", "units": gate_chain("C09") + [vc("C09")]}
 
 P["C19"] = {"property": "C19", "level": "proof", "units": [top("C19", replay={"driver": "replay/r_C19.c"})]}
+P["C10"] = {"property": "C10", "level": "proof", "units": [gen_top()]}
+P["C13"] = {"property": "C13", "level": "proof", "units": [gen_top(), top("C13")]}
+P["C17"] = {"property": "C17", "level": "proof", "units": [gen_top()]}
+P["C03"]["units"].append(gen_top())
+P["C14"]["units"].append(gen_top())
 for _p in ("C01", "C02", "C03", "C04", "C06", "C09", "C14"):
     P[_p]["units"].append(top(_p))
 
